@@ -267,14 +267,37 @@ def analyze(ctx, want):
     ctx.analysed_fn(bt)
     ex, paths = run_fn(bt, F, LogModel())
     body = 0
+    has_fg = bool(F.fn_opt(r"Minimizer::find_group$"))
+    from .common import loop_sources as _lsrc
+
+    def inlined_lookup(p_, grp_):
+        """The group lookup written in place (find_group turned into a closure of this function, which the engine evaluates where
+        it is called): the value is the index of a search loop over `partition` whose hit test is `group.contains(target)`."""
+        m_ = re.match(r"^[(&*]*(?:\w+::)*(?:\w+\()?\(?index@bb(\d+)(?: as u\d+)?\)*$", S.fstr(grp_))
+        if not m_:
+            return None
+        k_ = int(m_.group(1))
+        hit = [c_ for c_, o_ in p_.conds if o_ is True and c_[0] == "app" and re.search(r"BTreeSet::<.*>::contains", c_[1]) and ("item@bb%d" % k_) in S.fstr(c_[2][0])]
+        src = [s_ for b_, s_ in _lsrc(ex, paths) if b_ == k_]
+        if not hit or not any("partition" in s_ for s_ in src):
+            return None
+        return hit[0]
+    n_inl = 0
     for p in paths:
         ins = p.calls(r"TransitionsToPartitionGroups::insert$")
         fg = p.calls(r"Minimizer::find_group$")
         if ins:
             body += 1
-            ok = len(fg) == 1 and "item@" in S.fstr(fg[0][3][0]) and S.fstr(fg[0][3][1]).lstrip("&*") == "partition"
             cls = ins[0][3][1]
             grp = ins[0][3][2]
+            if not has_fg:
+                h_ = inlined_lookup(p, grp)
+                n_inl += 1
+                ok_in = h_ is not None and "item@" in S.fstr(h_[2][1]) and "item@" in S.fstr(cls)
+                ob("C03.c", "signature-entry-is-(class, group-of-target)", ok_in, "insert(%s, %s) with the lookup in place: %s" % (S.fstr(cls)[:40], S.fstr(grp)[:40], S.fstr(h_)[:80] if h_ else "not recognised"), bt.loc())
+                ob("C03.d", "group-id-is-the-index-of-the-containing-group", ok_in, "lookup in place: index of the first group of the partition that contains the target", bt.loc())
+                continue
+            ok = len(fg) == 1 and "item@" in S.fstr(fg[0][3][0]) and S.fstr(fg[0][3][1]).lstrip("&*") == "partition"
             ok2 = "item@" in S.fstr(cls) and S.mentions(grp, lambda x: x == fg[0][4]) if fg else False
             ob("C03.c", "signature-entry-is-(class, group-of-target)", ok and ok2, "insert(%s, %s)" % (S.fstr(cls)[:40], S.fstr(grp)[:60]), bt.loc())
     # insert() itself appends exactly the given pair, unconditionally: a "deduplicating" insert that looks at the previous entry
@@ -304,24 +327,30 @@ def analyze(ctx, want):
     its = [M.call_name(t) for bb, t in bt.calls(ADAPTERS)]
     brk = []
     # every target whose group is looked up contributes its (class, group) entry: no iteration looks a group up and then skips the insert
-    skipped = [p for p in paths if p.calls(r"Minimizer::find_group$") and not p.calls(r"TransitionsToPartitionGroups::insert$") and p.end[0] != "panic"]
+    skipped = [p for p in paths if (p.calls(r"Minimizer::find_group$") or (not has_fg and any(o_ is True and c_[0] == "app" and re.search(r"BTreeSet::<.*>::contains", c_[1]) for c_, o_ in p.conds)))
+               and not p.calls(r"TransitionsToPartitionGroups::insert$") and p.end[0] != "panic"]
     ob("C03.c", "no-looked-up-target-is-skipped", not skipped, "%d iteration path(s) look a target's group up without adding it to the signature%s" % (len(skipped), (": skipped when " + "; ".join("%s is %s" % (S.fstr(c)[:60], o) for c, o in skipped[0].conds[-2:])) if skipped else ""), bt.loc())
     ob("C03.c", "all-transitions-and-targets-enter-the-signature", body >= 1 and not its, "%d body paths; adapters %s" % (body, its), bt.loc())
     look = [e for p in paths for e in p.events if e[0] == "call" and re.search(r"BTreeMap::<.*>::get::", e[2])]
     ob("C03.c", "signature-of-the-given-state", bool(look) and S.fstr(ex.deref_val(paths[0], look[0][3][1])) in ("state_id",) or (bool(look) and "state_id" in S.fstr(look[0][3][1])), "transitions.get(%s)" % (S.fstr(look[0][3][1]) if look else None), bt.loc())
-    fgf = F.fn(r"Minimizer::find_group$")
-    ex, paths = run_fn(fgf, F, LogModel())
-    from .common import search_table, hit_is_index_of
-    st_ = search_table(ex, paths)
-    badf = [M.short_name(M.call_name(t)) for bb, t in fgf.calls(r"Iterator>::(rev|rposition|skip|take|filter|step_by|skip_while|take_while|chain|zip)\b")]
-    ok = bool(st_["hit"]) and bool(st_["source"]) and all("partition" in x for x in st_["source"]) and not badf
-    for r, ic, p in st_["hit"]:
-        good = [c for c, o in ic if o is True and c[0] == "app" and re.search(r"BTreeSet::<.*>::contains", c[1]) and "item@" in S.fstr(c[2][0]) and "state_id" in S.fstr(c[2][1])]
-        val = r[3][0] if r[0] == "adt" and r[2] == "Some" and r[3] else r
-        ok = ok and bool(good) and hit_is_index_of(val, good[0])
-    for ic, p in st_["miss"]:
-        ok = ok and any(o is False and c[0] == "app" and re.search(r"BTreeSet::<.*>::contains", c[1]) for c, o in ic)
-    ob("C03.d", "group-id-is-the-index-of-the-containing-group", ok, "search over %s; hits %s" % (sorted(set(st_["source"])), [S.fstr(r)[:40] for r, _, _ in st_["hit"]]), fgf.loc())
+    if has_fg:
+        fgf = F.fn(r"Minimizer::find_group$")
+        ex, paths = run_fn(fgf, F, LogModel())
+        from .common import search_table, hit_is_index_of
+        st_ = search_table(ex, paths)
+        badf = [M.short_name(M.call_name(t)) for bb, t in fgf.calls(r"Iterator>::(rev|rposition|skip|take|filter|step_by|skip_while|take_while|chain|zip)\b")]
+        ok = bool(st_["hit"]) and bool(st_["source"]) and all("partition" in x for x in st_["source"]) and not badf
+        for r, ic, p in st_["hit"]:
+            good = [c for c, o in ic if o is True and c[0] == "app" and re.search(r"BTreeSet::<.*>::contains", c[1]) and "item@" in S.fstr(c[2][0]) and "state_id" in S.fstr(c[2][1])]
+            val = r[3][0] if r[0] == "adt" and r[2] == "Some" and r[3] else r
+            ok = ok and bool(good) and hit_is_index_of(val, good[0])
+        for ic, p in st_["miss"]:
+            ok = ok and any(o is False and c[0] == "app" and re.search(r"BTreeSet::<.*>::contains", c[1]) for c, o in ic)
+        ob("C03.d", "group-id-is-the-index-of-the-containing-group", ok, "search over %s; hits %s" % (sorted(set(st_["source"])), [S.fstr(r)[:40] for r, _, _ in st_["hit"]]), fgf.loc())
+    else:
+        # the lookup lives inside build_transitions_to_partition_group (decided above, per use); no adaptor may shorten its walk
+        badc = [M.short_name(M.call_name(t_)) for c_ in F.closures_of(bt) for b_, t_ in c_.calls(r"Iterator>::(rev|rposition|skip|take|filter|step_by|skip_while|take_while|chain|zip)\b")]
+        ob("C03.d", "group-lookup-in-place-walks-the-whole-partition", n_inl >= 1 and not badc, "%d use(s) of the lookup written in place; adaptors %s" % (n_inl, badc), bt.loc())
     casts.analyze(ctx, {"C03.d"} & want)
 
     # ---- C03.e fixpoint ------------------------------------------------------------------------
